@@ -214,8 +214,12 @@ Section Model.
   (** [position()] *)
   Definition y_position (y : ycore) : T := ndiv (nadd (nofZ (y_cur y)) (y_fpos y)) (nofZ (y_sr y)).
 
-  (** [f64::max(self, 0.0)]: NaN gives 0.0 *)
-  Definition nmax0 (x : T) : T := if nisnan x then n0 else if nltb x n0 then n0 else x.
+  (** [f64::max(self, 0.0)]: NaN gives 0.0.  For -0.0 Rust may return either zero ("if the inputs compare equal,
+      either input may be returned"); the model returns +0.0 (what [abs] gives): the value is only multiplied by the
+      two sample-rate factors and added to the fractional position, which is never -0.0, so the choice cannot be
+      observed (and the witness with rate -0.0 is compared bit for bit with the implementation on every run). *)
+  Definition nmax0 (x : T) : T :=
+    if nisnan x then n0 else if nltb x n0 then n0 else if nsignneg x then nneg x else x.
 
   (** [while self.fractional_position >= 1.0 { self.fractional_position -= 1.0; self.frame_consumer.pop().ok(); }];
       also returns the number of iterations (ghost) *)
@@ -343,9 +347,8 @@ Section Model.
   Definition q_frame_at_index (q : producer) (index : Z) : outcome (option A * dsched) :=
     let dec := q_dec q in
     let start := match q_slice q with Some (st, _) => st | None => 0 end in
-    let en := match q_slice q with Some (_, e) => e | None => q_n q end in
-    let! d := sub_chk en start in
-    if index >=? d then Ok (Some azero, dec)
+    (* [num_frames] is the length of the slice, clipped to the audio *)
+    if index >=? q_n q then Ok (Some azero, dec)
     else
       let! index := add_chk start index in
       let i := Z.to_nat index in
@@ -362,10 +365,12 @@ Section Model.
   (** [StreamingSoundData::split]: [DecodeScheduler::new] (ring pre-seeded with one zero frame of index 0,
       [decoder.seek(start_position)], the transport) then [StreamingSound::new] *)
   Definition stream_new (sr : Z) (slice : option (Z * Z)) (g : settings) : outcome stream :=
-    let! n := match slice with
-              | Some (st, e) => sub_chk e st
-              | None => Ok (Z.of_nat (length audio))
-              end in
+    (* a slice that reaches beyond the end of the audio (or is inverted) only covers the frames that exist:
+       [end.min(decoder.num_frames()).saturating_sub(start)] *)
+    let n := match slice with
+             | Some (st, e) => sat_sub (Z.min e (Z.of_nat (length audio))) st
+             | None => Z.of_nat (length audio)
+             end in
     let start_position := into_samples (g_start_pos g) sr in
     let d := dseek d0 (Z.to_nat start_position) in
     let lr := option_map (fun r => region_samples r sr n) (g_loop g) in
